@@ -31,4 +31,13 @@ impl<I: Iterator, F: Fn(I::Item) -> ControlFlow<I::Item, I>> Iterator for Stack<
             }
         }
     }
+
+    /// Report an empty stack, so that an enclosing stack does not keep this one around.
+    fn size_hint(&self) -> (usize, Option<usize>) {
+        if self.0.is_empty() {
+            (0, Some(0))
+        } else {
+            (0, None)
+        }
+    }
 }
